@@ -3,6 +3,7 @@ package node
 import (
 	"fmt"
 
+	"github.com/freeconf/yang/fc"
 	"github.com/freeconf/yang/meta"
 	"github.com/freeconf/yang/val"
 	"github.com/freeconf/yang/xpath"
@@ -56,7 +57,7 @@ func (xp xpathImpl) resolvePath(seg *xpath.Path, s *Selection) (*Selection, erro
 		}
 		return s, nil
 	}
-	panic("type not supported " + m.Ident())
+	return nil, fmt.Errorf("%w. '%s' is not supported in xpath", fc.BadRequestError, m.Ident())
 }
 
 func (xp xpathImpl) resolveExpression(name string, e xpath.Expression, sel *Selection) (bool, error) {
@@ -64,7 +65,7 @@ func (xp xpathImpl) resolveExpression(name string, e xpath.Expression, sel *Sele
 	case *xpath.Operator:
 		return xp.resolveOperator(x, name, sel)
 	}
-	panic("unknown xpath expression")
+	return false, fmt.Errorf("%w. unsupported xpath expression on '%s'", fc.BadRequestError, name)
 }
 
 func (xp xpathImpl) resolveOperator(oper *xpath.Operator, ident string, s *Selection) (bool, error) {
@@ -90,7 +91,16 @@ func (xp xpathImpl) resolveOperator(oper *xpath.Operator, ident string, s *Selec
 	case "!=":
 		return !val.Equal(a, b), nil
 	default:
-		c := a.(val.Comparable).Compare(b.(val.Comparable))
+		if a == nil || b == nil {
+			// a leaf without a value is neither less nor greater than anything
+			return false, nil
+		}
+		ac, aok := a.(val.Comparable)
+		bc, bok := b.(val.Comparable)
+		if !aok || !bok {
+			return false, fmt.Errorf("%w. '%s' values have no order", fc.BadRequestError, ident)
+		}
+		c := ac.Compare(bc)
 		switch oper.Oper {
 		case "<":
 			return c < 0, nil
@@ -102,7 +112,7 @@ func (xp xpathImpl) resolveOperator(oper *xpath.Operator, ident string, s *Selec
 			return c <= 0, nil
 		}
 	}
-	panic("unrecognized operator: " + oper.Oper)
+	return false, fmt.Errorf("%w. unrecognized operator: %s", fc.BadRequestError, oper.Oper)
 }
 
 func (xp xpathImpl) resolveAbsolutePath(s *Selection) (*Selection, error) {
